@@ -86,7 +86,7 @@ func Run(r *fw.Run) {
 	r.Assume = []string{"the invariant is evaluated on the API objects returned by ConnlistFromResourceInfos (Src/Dst strings, ProtocolsAndPorts, AllProtocolsAndPorts), the IP-coverage clause whenever the result contains a workload peer",
 		"small-scope alphabets of DESIGN §2.3; the same invariant is also asserted inside C01/C02/C06/C10/C17 on all their results"}
 	if r.Quick() {
-		r.SetBudget(150 * time.Second)
+		r.SetBudget(300 * time.Second)
 	} else {
 		r.SetBudget(25 * time.Minute)
 	}
